@@ -35,14 +35,14 @@ def prereqOne (c : Cfg) (z : Zone) (r : Rec) : Option Rc :=
   if r.ttl ≠ 0 then some .formErr
   else if !(Name.zoneOf c.origin r.name) then some .notZone
   else if r.cls = C_ANY then
-    if r.isEmptyData then
+    if r.isEmptyDataPrereq then
       if r.rtype = T_ANY then
         if (lookupRecs z name T_ANY).isEmpty then some .nxDomain else none
       else
         if (lookupRecs z name r.rtype).isEmpty then some .nxRRSet else none
     else some .formErr
   else if r.cls = C_NONE then
-    if r.isEmptyData then
+    if r.isEmptyDataPrereq then
       if r.rtype = T_ANY then
         if !(lookupRecs z name T_ANY).isEmpty then some .yxDomain else none
       else
@@ -68,7 +68,7 @@ def prescanOne (c : Cfg) (r : Rec) : Option Rc :=
     if r.rtype = T_ANY ∨ r.rtype = T_AXFR ∨ r.rtype = T_IXFR then some .formErr else none
   else if r.cls = C_ANY then
     if r.ttl ≠ 0 then some .formErr
-    else if !r.isEmptyData then some .formErr
+    else if !r.isEmptyDataPrescan then some .formErr
     else if r.rtype = T_AXFR ∨ r.rtype = T_IXFR then some .formErr
     else none
   else if r.cls = C_NONE then
